@@ -206,3 +206,34 @@ pub fn generate_fold(seed: u64, n: usize, _tier: &str, emit: &mut dyn FnMut(Stri
         emit(s);
     }
 }
+
+// ------------------------------------------------------------------------------- size
+
+/// Family `size`: payload `<limit|none> <tree>`; the tree is rebuilt bottom-up through the culling
+/// constructor `RSV::new(.., limit)`; answer `<built> ;; <constant_fold(built)>`.
+pub fn eval_size(payload: &str) -> String {
+    let (lim, tree) = payload.split_once(' ').expect("limit tree");
+    let limit: Option<usize> = if lim == "none" { None } else { Some(lim.parse().unwrap()) };
+    let mut ids = sv::Ids::default();
+    let Some(v) = sv::parse(tree, &mut ids, limit) else { return "err unparsable".into() };
+    let f = v.constant_fold();
+    format!("{} ;; {}", sv::to_text(&*v, &mut ids), sv::to_text(&*f, &mut ids))
+}
+
+pub fn generate_size(seed: u64, n: usize, _tier: &str, emit: &mut dyn FnMut(String)) {
+    let bw = boundary_words();
+    for idx in 0..n {
+        let mut r = Rng::for_case(seed, "size", idx);
+        let mut s = String::new();
+        let depth = 1 + r.below(6);
+        gen_tree(&mut r, depth, &bw, &mut s);
+        let lim = match r.below(8) {
+            0 => "none".to_string(),
+            1 => "1".to_string(),
+            2 => "2".to_string(),
+            3 => "3".to_string(),
+            _ => (1 + r.below(40)).to_string(),
+        };
+        emit(format!("{lim} {s}"));
+    }
+}
